@@ -10,7 +10,7 @@ Ltac split_orb :=
   repeat match goal with
          | H : _ || _ = false |- _ => apply orb_false_iff in H; destruct H
          end.
-Ltac bsimpl := cbn [build mapped node_builder pm insub injoin infmt].
+Ltac bsimpl := cbn [build enter keeps_insub mapped node_builder pm insub injoin infmt].
 
 (* ---------- totality ---------- *)
 Definition TotalP (e : pyexpr) : Prop :=
@@ -80,17 +80,17 @@ Proof.
   - (* PStr *) tstart. destruct (xj && negb xf); eexists; reflexivity.
   - (* PDict *) tstart.
     assert (Hx : exists its, mapo (fun it => match it with
-                  | PDictItem None v => match build (mkCtx NoParse xs xj xf) v with Some v' => Some (None, v') | None => None end
-                  | PDictItem (Some k) v => match build (mkCtx NoParse xs xj xf) k, build (mkCtx NoParse xs xj xf) v with
+                  | PDictItem None v => match build (mkCtx NoParse false xj xf) v with Some v' => Some (None, v') | None => None end
+                  | PDictItem (Some k) v => match build (mkCtx NoParse false xj xf) k, build (mkCtx NoParse false xj xf) v with
                                             | Some k', Some v' => Some (Some k', v') | _, _ => None end
                   | _ => None end) items = Some its).
     { apply forallb_Forall in Hwf. apply existsb_false_Forall in Hs. revert Hwf Hs.
       induction H as [|x l [_ Hx] _ IH]; intros Hwf Hs; [exists []; reflexivity|].
       inversion Hwf; subst. inversion Hs; subst. destruct (IH H2 H4) as [its Bits]. simpl. rewrite Bits.
       destruct x; try (cbn in H1; discriminate H1). cbn in H1. split_andb. cbn [scan] in H3. split_orb.
-      destruct Hx as [Hk Hv]. destruct (Hv sc (mkCtx NoParse xs xj xf) eq_refl ltac:(assumption) ltac:(assumption)) as [gv Bv].
+      destruct Hx as [Hk Hv]. destruct (Hv sc (mkCtx NoParse false xj xf) eq_refl ltac:(assumption) ltac:(assumption)) as [gv Bv].
       rewrite Bv. destruct k as [k|]; [|eexists; reflexivity]. simpl in Hk.
-      destruct (Hk sc (mkCtx NoParse xs xj xf) eq_refl ltac:(assumption) ltac:(assumption)) as [gk Bk]. rewrite Bk. eexists; reflexivity. }
+      destruct (Hk sc (mkCtx NoParse false xj xf) eq_refl ltac:(assumption) ltac:(assumption)) as [gk Bk]. rewrite Bk. eexists; reflexivity. }
     destruct Hx as [its Bits]. rewrite Bits. eexists; reflexivity.
   - (* PDictItem *) split; [intros sc c Hc Hwf; discriminate Hwf|]. destruct H0 as [Hv _]. split; [|assumption].
     destruct k; simpl in *; [destruct H; assumption|exact I].
@@ -163,7 +163,7 @@ Proof. destruct a, conds; nnorm; cbn [is_nil]; nnorm; reflexivity. Qed.
 Lemma names_Dict items : names (GDict items) = flat_map (fun kv => onames (fst kv) ++ names (snd kv)) items.
 Proof.
   nnorm. rewrite flat_map_map. apply flat_map_ext. intros [[k|] v]; unfold dict_item; simpl fst; simpl snd;
-    rewrite !inames_app, ?inames_yb; reflexivity.
+    rewrite !inames_app, ?inames_yb; cbn [item_names flat_map app onames]; rewrite ?app_nil_r; reflexivity.
 Qed.
 Lemma names_DictComp k v gens : names (GDictComp k v gens) = names k ++ names v ++ flat_map names gens. Proof. nnorm. reflexivity. Qed.
 Lemma names_Formatted v : names (GFormatted v) = names v. Proof. nnorm. reflexivity. Qed.
@@ -253,7 +253,7 @@ Ltac nm_step :=
 Ltac nstart :=
   let m := fresh "m" in let Hm := fresh "Hm" in
   split; [|try exact I]; intros [m xs xj xf] g Hm Hwf Hs Hb; simpl in Hm; subst m;
-  cbn in Hwf; split_andb; cbn [scan] in Hs; split_orb; cbn [build mapped node_builder pm insub injoin infmt] in Hb;
+  cbn in Hwf; split_andb; cbn [scan] in Hs; split_orb; cbn [build enter keeps_insub mapped node_builder pm insub injoin infmt] in Hb;
   rewrite ?binop_table, ?boolop_table, ?unop_table, ?cmpops_table in Hb;
   repeat match goal with H : NamesP' _ |- _ => destruct H as [H _] end;
   binv Hb; autorewrite with names_eq; cbn [src_names]; rewrite ?flat_map_app; repeat nm_step; try reflexivity.
@@ -298,10 +298,10 @@ Proof.
       destruct k as [k|].
       * simpl in Hk. destruct (build _ k) eqn:Ek; [|discriminate E]. destruct (build _ x) eqn:Ev; [|discriminate E].
         inversion E; subst. cbn [flat_map fst snd onames].
-        rewrite (Hk (mkCtx NoParse xs xj xf) _ eq_refl ltac:(assumption) ltac:(assumption) Ek), (Hv (mkCtx NoParse xs xj xf) _ eq_refl ltac:(assumption) ltac:(assumption) Ev).
+        rewrite (Hk (mkCtx NoParse false xj xf) _ eq_refl ltac:(assumption) ltac:(assumption) Ek), (Hv (mkCtx NoParse false xj xf) _ eq_refl ltac:(assumption) ltac:(assumption) Ev).
         rewrite <- app_assoc. reflexivity.
       * destruct (build _ x) eqn:Ev; [|discriminate E]. inversion E; subst. cbn [flat_map fst snd onames app].
-        rewrite (Hv (mkCtx NoParse xs xj xf) _ eq_refl ltac:(assumption) ltac:(assumption) Ev). reflexivity.
+        rewrite (Hv (mkCtx NoParse false xj xf) _ eq_refl ltac:(assumption) ltac:(assumption) Ev). reflexivity.
   - (* PDictItem *) split; [intros c g Hc Hwf; discriminate Hwf|]. destruct H0 as [Hv _]. split; [|assumption].
     destruct k; simpl in *; [destruct H; assumption|exact I].
   - (* PLambda *) nstart.
